@@ -155,7 +155,7 @@ func ruleFU(c *Ctx, part string) {
 			n := 0
 			for _, side := range []ssa.Value{b.X, b.Y} {
 				walkDeps(side, func(x ssa.Value) bool {
-					if f, _, ok := fieldLoad(x); ok && f.Name() == "SequenceNumber" {
+					if f, _, ok := fieldLoad(x); ok && theProgram.baseFieldName(f) == "SequenceNumber" {
 						n++
 						return false
 					}
@@ -166,7 +166,7 @@ func ruleFU(c *Ctx, part string) {
 		}
 		var writeFrame *ssa.Function
 		instrs(fn, func(ins ssa.Instruction) {
-			if cc := callCommon(ins); cc != nil && cc.StaticCallee() != nil && cc.StaticCallee().Name() == "writeFrame" {
+			if cc := callCommon(ins); cc != nil && cc.StaticCallee() != nil && baseFuncName(cc.StaticCallee()) == "writeFrame" {
 				writeFrame = cc.StaticCallee()
 			}
 		})
@@ -312,7 +312,7 @@ func ruleFU(c *Ctx, part string) {
 				n := 0
 				for _, side := range []ssa.Value{b.X, b.Y} {
 					walkDeps(side, func(x ssa.Value) bool {
-						if f, _, ok := fieldLoad(x); ok && f.Name() == "SequenceNumber" {
+						if f, _, ok := fieldLoad(x); ok && theProgram.baseFieldName(f) == "SequenceNumber" {
 							n++
 							return false
 						}
@@ -368,14 +368,14 @@ func ruleAggVerbatim(c *Ctx) {
 			switch x := ins.(type) {
 			case *ssa.Store:
 				if ia, isIdx := x.Addr.(*ssa.IndexAddr); isIdx {
-					if f, _, okf := fieldLoad(ia.X); okf && f.Name() == "Payload" {
+					if f, _, okf := fieldLoad(ia.X); okf && theProgram.baseFieldName(f) == "Payload" {
 						ok = false
 						c.Bad("agg-verbatim:"+fname(fn), p.InstrPos(ins), "an aggregated unit's bytes are rewritten after the copy (element store into frame.Payload): the emitted NAL unit differs from the unit the sender packetised (e.g. its header's NRI bits replaced by the aggregation header's)")
 					}
 				}
 			case *ssa.Call:
 				if calleeName(&x.Call) == "builtin.copy" {
-					if f, _, okf := fieldLoad(x.Call.Args[0]); okf && f.Name() == "Payload" {
+					if f, _, okf := fieldLoad(x.Call.Args[0]); okf && theProgram.baseFieldName(f) == "Payload" {
 						nCopy++
 						if !isPayload(x.Call.Args[1]) {
 							ok = false
@@ -467,7 +467,7 @@ func ruleOneTimestamp(c *Ctx) {
 			if cc == nil || cc.StaticCallee() == nil {
 				return
 			}
-			name := cc.StaticCallee().Name()
+			name := baseFuncName(cc.StaticCallee())
 			if name != "writeFrame" && name != "rtp2ntp" {
 				return
 			}
@@ -479,7 +479,7 @@ func ruleOneTimestamp(c *Ctx) {
 			// direct: load of pkt.Timestamp
 			isPktTS := func(v ssa.Value) bool {
 				f, base, ok := fieldLoad(v)
-				if !ok || f.Name() != "Timestamp" {
+				if !ok || theProgram.baseFieldName(f) != "Timestamp" {
 					return false
 				}
 				return origin(addrRoot(base)) == pkt
